@@ -150,21 +150,11 @@ Definition request_ok (s : st) (o : op) : bool :=
   | OpDeclareStatic c paths => requester_b c s && nodup_by str_eqb paths
   | OpDefineStep c l inp env out vol nd =>
     requester_b c s && nodup_by str_eqb out && nodup_by str_eqb vol
-    && negb (mem_key c (rec_products (KStep, l) s))
-       (* a step does not declare its own (indirect) creator again; see request_ok_weak and
-          C09_define_own_creator_refuted *)
   | OpAmendStep l inp env out vol =>
     is_some (find_node (KStep, l) s) && nodup_by str_eqb out && nodup_by str_eqb vol
   | OpHold l => is_some (find_step l s)
   | OpRelease l => is_some (find_step l s)
   | _ => false
-  end.
-(* the same without the own-creator clause *)
-Definition request_ok_weak (s : st) (o : op) : bool :=
-  match o with
-  | OpDefineStep c l inp env out vol nd =>
-    requester_b c s && nodup_by str_eqb out && nodup_by str_eqb vol
-  | _ => request_ok s o
   end.
 Definition is_internal {A} (r : res A) : bool := match r with Internal _ => true | _ => false end.
 
